@@ -3,8 +3,8 @@
 import glob, json, re, sys
 log = open(sys.argv[1]).read() if len(sys.argv) > 1 else ""
 th = {}
-for m in re.finditer(r"=== (C\d+)\n(?:.*\n)*?(C\d+) thorough seed=0 (\{.*?\}) wall=([\d.]+)s violations=(\d+)", log):
-    th[m.group(1)] = (json.loads(m.group(3)), float(m.group(4)), int(m.group(5)))
+for m in re.finditer(r"()(C\d+) thorough seed=0 (\{.*?\}) wall=([\d.]+)s violations=(\d+)", log):
+    th[m.group(2)] = (json.loads(m.group(3)), float(m.group(4)), int(m.group(5)))
 print("| id | level | quick tier (evidence file) | quick wall | thorough tier (sweep log) |\n|---|---|---|---|---|")
 for p in sorted(glob.glob("/verif/evidence/C*.json")):
     e = json.load(open(p)); c = e["coverage"]; pid = e["property_id"]
